@@ -339,8 +339,17 @@ def run_shapes(check, worker, shapes, workers=None, pool=None):
     if pool is None:
         pool = make_pool(workers)
     check.info['mir_source_hash'] = _G['keys']
+    # a source change that breaks (almost) every shape produces a flood of counterexamples; once 12 shapes have one, the remaining
+    # shapes are not run (recorded as truncated).  This never happens on a tree where the property holds: no shape has one.
+    results = []; with_sat = 0
     with pool:
-        results = pool.map(worker, shapes, chunksize=1)
+        for r in pool.imap(worker, shapes, chunksize=1):
+            results.append(r)
+            if r.get('sat') and any(r['sat']):
+                with_sat += 1
+                if with_sat >= 12 and len(results) < len(shapes):
+                    check.info['truncated'] = f'{len(shapes) - len(results)} of {len(shapes)} shapes not run after {with_sat} shapes with counterexamples'
+                    pool.terminate(); break
     for r in results:
         check.functions.update({re.sub(r'<impl at [^>]*?([\w.]+:\d+):\d+: \d+:\d+>', r'<impl@\1>', k): v for k, v in r['fns'].items()})
         check.trusted |= set(r['models'])
